@@ -13,6 +13,12 @@ import math
 
 import numpy as np
 
+try:
+    from absl import logging as _absl_logging
+    _absl_logging.set_verbosity(_absl_logging.ERROR)
+except Exception:  # noqa
+    pass
+
 from vt import coqgen as G
 from vt.fl import me, unme, nextafter_n
 
